@@ -26,6 +26,22 @@ def f32(x):
         return INF if x > 0 else -INF
 
 
+def _g(f):
+    def h(*a):
+        if any(x != x for x in a):
+            return float("nan")
+        return f(*a)
+    return h
+
+
+_LIBM = {"sin": _g(math.sin), "cos": _g(math.cos), "tan": _g(math.tan), "atan": _g(math.atan), "atan2": _g(math.atan2),
+         "asin": _g(math.asin), "acos": _g(math.acos), "hypot": _g(math.hypot), "floor": _g(lambda x: float(math.floor(x)) if not math.isinf(x) else x),
+         "ceil": _g(lambda x: float(math.ceil(x)) if not math.isinf(x) else x), "fabs": _g(abs), "exp": _g(math.exp), "log": _g(math.log),
+         "pow": _g(math.pow), "fmod": _g(math.fmod), "trunc": _g(lambda x: float(math.trunc(x)) if not math.isinf(x) else x),
+         "sinf": _g(math.sin), "cosf": _g(math.cos), "tanf": _g(math.tan), "atanf": _g(math.atan), "atan2f": _g(math.atan2),
+         "hypotf": _g(math.hypot), "sqrtf": _g(lambda x: math.sqrt(x) if x >= 0 else float("nan")), "fabsf": _g(abs)}
+
+
 class Trap(Exception):
     def __init__(self, kind, inst):
         self.kind = kind
@@ -421,5 +437,13 @@ class Conc:
             return
         if name.startswith("llvm.fabs."):
             env[i.res] = abs(self.val(env, args[0]))
+            return
+        if name in _LIBM:
+            xs = [self.val(env, a) for a in args]
+            try:
+                r = _LIBM[name](*xs)
+            except (ValueError, OverflowError):
+                r = float("nan")
+            env[i.res] = f32(r) if i.ty.kind == "float" else r
             return
         raise Broken("conc: call @%s" % name)
